@@ -11,3 +11,5 @@ import Proofs.C16
 #print axioms C16.builder_order
 #print axioms C16.columns_align_format
 #print axioms C16.no_trailing_blanks
+#print axioms C16.text_csv_same_view
+#print axioms C16.header_cells_span_keys
